@@ -115,6 +115,7 @@ class ManagerRig:
         self.sessions = 0
         self._auto_closed = False
         self._extra_done = set()
+        self.main_created = False
         self.frozen = False
 
     # -- recording ---------------------------------------------------------------------------
@@ -203,7 +204,7 @@ class ManagerRig:
     # -- phases, monitors --------------------------------------------------------------------------
     def phase(self) -> str:
         if not self.loop_running:
-            return "loop_not_running"
+            return "before_first_step" if self.main_created and self.sessions == 0 else "loop_not_running"
         if any(self.transports[c].returned for c in self.live_set):
             return "connected"
         if self.in_flight:
@@ -228,7 +229,7 @@ class ManagerRig:
 
     def _inject(self, loop) -> None:
         c = self.sc.get("close")
-        if c is not None and not self._auto_closed and loop.iteration >= c["iter"] and self.loop_running:
+        if c is not None and not self._auto_closed and loop.iteration >= c["iter"] and (self.loop_running or self.main_created):
             self._auto_closed = True
             self._splice_close(c.get("pos", 0))
         for n, e in enumerate(self.sc.get("extra") or ()):
@@ -330,6 +331,7 @@ class ManagerRig:
         self.harness_tasks = 2
         consumer = loop.create_task(self._consume())
         main = loop.create_task(self._main())
+        self.main_created = True
         max_iter = sc.get("max_iter", MAX_ITER_DEFAULT)
         horizon = sc.get("horizon", 300.0)
         stop_on_violation = self._stop
